@@ -10,8 +10,11 @@
 void *__ckd_calloc__(size_t n_elem, size_t elem_size, const char *file, int line)
 {
     (void)file; (void)line;
-    __CPROVER_assert(n_elem <= verif_alloc_limit && elem_size <= 8 && n_elem * elem_size <= 8 * verif_alloc_limit, "allocation size is bounded by the file size");
-    return calloc(n_elem, elem_size);
+    /* array data: at most one element per file byte; bookkeeping objects (elem_size > 8): at most one per file byte + 1 */
+    __CPROVER_assert(n_elem <= verif_alloc_limit + 1 && elem_size <= 128, "allocation size is bounded by the file size");
+    /* beyond the bound the path is cut (the obligation above has already failed there): keeps symbolic-size objects small */
+    __CPROVER_assume(n_elem <= verif_alloc_limit + 1 && elem_size <= 128);
+    return malloc(n_elem * elem_size);   /* content of the block is irrelevant to the index-level contracts */
 }
 void *__ckd_malloc__(size_t size, const char *file, int line) { (void)file; (void)line; return malloc(size); }
 void ckd_free(void *ptr) { free(ptr); }
@@ -41,4 +44,44 @@ void h_s3file_get_2d(void) { void ***a; uint32 *d1, *d2; s3file_t *s; s3file_get
 void h_s3file_get_3d(void) { void ****a; uint32 *d1, *d2, *d3; s3file_t *s; s3file_get_3d(a, S3_ELSZ, d1, d2, d3, s); VERIF_CANARY(); }
 void h_chksum_accum_bounded(void) { const void *b; size_t e, n; uint32 s; chksum_accum(b, e, n, s); VERIF_CANARY(); }
 void h_s3file_verify_chksum(void) { s3file_t *s; s3file_verify_chksum(s); VERIF_CANARY(); }
+#endif
+
+#ifndef S3_GET_ENFORCE
+/* Constructive bounded harness: a whole file of <= FLEN symbolic bytes read through the REAL s3file_get / get_1d /
+ * get_2d / get_3d / verify_chksum (byte-loop memcpy, real swap/checksum loops).  Also the native replay driver. */
+#ifndef FLEN
+#define FLEN 20
+#endif
+void r_s3file_arrays(void)
+{
+    IN_ARR(unsigned char, in_file, FLEN); IN(int, in_len); IN(int, in_mode); IN(int, in_swap); IN(int, in_chk);
+#ifdef MODE
+    SSW_ASSUME(in_mode == MODE);
+#endif
+    SSW_ASSUME(0 <= in_len && in_len <= FLEN && 0 <= in_mode && in_mode <= 3 && (in_swap == 0 || in_swap == 1) && (in_chk == 0 || in_chk == 1));
+    unsigned char *buf = malloc((size_t)in_len + 1);   /* exact-size block: any over-read is an obligation */
+    SSW_ASSUME(buf != NULL);
+    for (int i = 0; i < FLEN; i++) if (i < in_len) buf[i] = in_file[i];
+#ifdef SSW_CBMC
+    verif_alloc_limit = (size_t)in_len;
+#endif
+    s3file_t *s = s3file_init(buf, (size_t)in_len);
+    s->do_swap = in_swap; s->do_chksum = in_chk;
+    long r; uint32 n = 0, d1 = 0, d2 = 0, d3 = 0; void *one = NULL; void **two = NULL; void ***three = NULL;
+    if (in_mode == 0) {
+        r = s3file_get_1d(&one, S3_ELSZ, &n, s);
+        SSW_ASSERT(r == -1 || (r == (long)n && n > 0 && (size_t)n * S3_ELSZ + 4 <= (size_t)in_len), "a 1-d array is returned only if the file holds all of it");
+    } else if (in_mode == 1) {
+        r = s3file_get_2d(&two, S3_ELSZ, &d1, &d2, s);
+        SSW_ASSERT(r == -1 || (r > 0 && (size_t)d1 * d2 == (size_t)r && (size_t)r * S3_ELSZ + 12 <= (size_t)in_len), "a 2-d array is returned only if its dimensions match its data");
+    } else if (in_mode == 2) {
+        r = s3file_get_3d(&three, S3_ELSZ, &d1, &d2, &d3, s);
+        SSW_ASSERT(r == -1 || (r > 0 && (size_t)d1 * d2 * d3 == (size_t)r && (size_t)r * S3_ELSZ + 16 <= (size_t)in_len), "a 3-d array is returned only if its dimensions match its data");
+    } else {
+        int h = s3file_parse_header(s, NULL);
+        SSW_ASSERT(h == 0 || h == -1, "header parsing reports success or failure");
+    }
+    SSW_ASSERT(s->ptr <= s->end && s->ptr >= (const char *)buf, "the read position stays inside the file");
+    VERIF_CANARY();
+}
 #endif
